@@ -47,6 +47,35 @@ def reduce_evolve_exact(fi):
     return args, target, exponent, ret, app, ph.lineno
 
 
+
+def thermal_hamiltonian_rule(chk, src):
+    """abstract run of the two propagation paths of ThermalProp: the generator is built from the Hamiltonian the job was asked to use (self.h_mpo),
+    which is also the operator the energies (and the energy shift) are computed with"""
+    from ..syminterp import SymInterp, Sym, Blob
+    TP = "renormalizer/mps/thermalprop.py"
+    for qual in ("ThermalProp.evolve_exact", "ThermalProp.evolve_prop"):
+        fi = src.func(TP, qual)
+        used = []
+
+        class MpoTag(Sym):
+            def __call__(self, model, *a, **k):
+                used.append(("Mpo", model))
+                return Sym("h_mpo", model=model)
+        tag = MpoTag("Mpo")
+        tag.__dict__["exact_propagator"] = lambda model, *a, **k: used.append(("exact_propagator", model)) or Sym("prop", apply=lambda st, **kw: Sym("new", normalize=lambda kind: None))
+        it = SymInterp(src, None, {"Mpo": tag, "Quantity": lambda x: ("Quantity", x)})
+        me = Sym("job", h_mpo=Sym("h_mpo", model="<requested model>"), energies=[Blob("E0"), Blob("E_last")], space="GS")
+        state = Sym("old_mpdm", model="<model of the state>", evolve=lambda h, dt: Sym("evolved"))
+        it.call_function(fi, [me, state, Blob("dt")])
+        ok = len(used) == 1 and used[0][1] == "<requested model>"
+        chk.ob("thermal-hamiltonian", qual, ok, fi.where, used, "generator built from self.h_mpo.model", line=fi.node.lineno,
+               detail=f"{qual} builds its propagator from {used[0][1] if used else '?'}: when the job is given a Hamiltonian model different from the model the initial state was built with "
+                      "(h_mpo_model argument), this path relaxes towards the Gibbs state of another Hamiltonian than the one the energies are computed with")
+    pm = src.func(TP, "ThermalProp.process_mps")
+    e = [unparse(c).replace(" ", "") for c in ast.walk(pm.node) if isinstance(c, ast.Call) and isinstance(c.func, ast.Attribute) and c.func.attr == "expectation"]
+    chk.ob("thermal-hamiltonian", "energies are expectation values of the requested Hamiltonian", any(x.endswith(".expectation(self.h_mpo)") for x in e), pm.where, e, "mps.expectation(self.h_mpo)", line=pm.node.lineno)
+
+
 def run(chk):
     src = chk.src
     chk.explanation = (
@@ -61,6 +90,8 @@ def run(chk):
     chk.rule("evolve-exact-siblings", "Mps / MpDm.evolve_exact: same propagator arguments, phase on the returned object, offset cancels in the total exponent", 8)
     chk.rule("exact-propagator", "exact_propagator: scalar shift applied once as exp(shift*x); matrix exponential by eigendecomposition is V diag(exp(x w)) V^T; GS block is exp(x omega n)", 4)
     chk.rule("thermal-siblings", "ThermalProp.evolve_exact and evolve_prop use the same shifted exponent", 3)
+    chk.rule("thermal-hamiltonian", "both thermal propagation paths and the energy bookkeeping use the Hamiltonian the job was given", 3)
+    thermal_hamiltonian_rule(chk, src)
     chk.rule("solver-sibling", "Krylov and ODE branch integrate the same exponent in imaginary time", 6)
     chk.rule("imag-normalise", "evolve(): complex (imaginary) step => state and prefactor normalised; real step => tensors only", 2)
     chk.rule("purification", "MpDm.from_mps embeds the state diagonally; ancilla carries no quantum number; operator sites carry (q, -q)", 4)
